@@ -108,6 +108,8 @@ def _seq_floors():
 def _seq_stage(ctx, prop, histories, extra=()):
     args = worker_args(ctx.seed, histories, 16, ["--prop", prop] + list(extra))
     ctx.stage("histories", "seqmodel", "dbg-asan", args, timeout=3600)
+    # the release code path (assertions compiled out) under the same sanitizers
+    ctx.stage("histories-ndebug", "seqmodel", "rel-asan", worker_args(ctx.seed + 90001, max(16, histories // 3), 16, ["--prop", prop] + [x for x in extra if x != "--directed"]), timeout=3600)
     ctx.floors = _seq_floors()
     ctx.assumptions = list(SEQ_ASSUME)
 
@@ -172,6 +174,8 @@ OLC_ASSUME = [
     "every thread is a registered qsbr_thread, passes quiescent states only between operations, drops value views at its own remove of that key and at its own quiescent state; the main thread is paused while the others run",
     "per-key Wing-Gong checker with memoisation; a search-budget overrun is inconclusive, never a verdict",
 ]
+OLC_FREE = ("Free-running stages: the same programs on real parallel threads, 30 rounds each with random yields / busy-waits at every hook, stamps from one "
+            "atomic counter, judged by the same oracles, under ThreadSanitizer (rel-tsan; no allocation tracker there) and AddressSanitizer (dbg-asan). ")
 OLC_RULE = ("programs = structural family (hot node with fan-out 2,3,4,5,16,17,48,49 at a random depth, as root or under a two/three-child top node, "
             "optionally with a deeper child; or an empty / one-leaf / two-leaf root) + 2-4 qsbr_threads x 1-4 operations {get, insert, remove, scan, scan_from, "
             "scan_range (both directions, optional halting)} on keys that sit on the transitions (grow at capacity, shrink at minimum, collapse with prefix "
@@ -180,10 +184,21 @@ OLC_RULE = ("programs = structural family (hot node with fan-out 2,3,4,5,16,17,4
             "PCT schedules with 1-3 random priority-change points and random walks. ")
 
 
-def _olc_stages(ctx, prop, cases_asan, cases_rel, explore):
+def _lincheck_selftest(ctx):
+    """The linearizability checker against brute force on random small histories (oracle self-check)."""
+    ctx.stage("lincheck-selftest", "lincheck_test", "rel", worker_args(ctx.seed, 160000, 4, []), timeout=600, jobs=4)
+
+
+def _olc_stages(ctx, prop, cases_asan, cases_rel, explore, free_cases=0):
     extra = ["--prop", prop, "--explore", str(explore)]
+    if prop in ("C03", "C09"):
+        _lincheck_selftest(ctx)
     ctx.stage("sched-dbg-asan", "olc_conc", "dbg-asan", worker_args(ctx.seed, cases_asan, 16, extra), timeout=3600)
     ctx.stage("sched-rel", "olc_conc", "rel", worker_args(ctx.seed + 7777, cases_rel, 16, extra), timeout=3600)
+    if free_cases:
+        fx = ["--prop", prop, "--mode", "free", "--rounds", "30"]
+        ctx.stage("free-tsan", "olc_conc", "rel-tsan", worker_args(ctx.seed + 31, free_cases, 8, fx), timeout=3600, jobs=8)
+        ctx.stage("free-asan", "olc_conc", "dbg-asan", worker_args(ctx.seed + 37, free_cases, 8, fx), timeout=3600, jobs=8)
     ctx.assumptions = list(OLC_ASSUME)
     ctx.floors = [("programs_swept_depth1", 50), ("executions_with_overlap_on_a_key", 500), ("executions_with_spin_or_restart", 500),
                   ("executions_with_free_during_run", 500), ("sweeps_completed", 1000), ("conservation_checks", 1000)]
@@ -192,8 +207,8 @@ def _olc_stages(ctx, prop, cases_asan, cases_rel, explore):
 @prop("C03")
 def c03(ctx):
     t = ctx.tier == "thorough"
-    _olc_stages(ctx, "C03", scaled(16000 if t else 800), scaled(32000 if t else 1600), 60)
-    ctx.rule = OLC_RULE + ("Every execution's call/return history (stamps = scheduler event clock, unique value per insert, final state read by the main thread) is "
+    _olc_stages(ctx, "C03", scaled(16000 if t else 800), scaled(32000 if t else 1600), 60, scaled(24000 if t else 480))
+    ctx.rule = OLC_RULE + OLC_FREE + ("Every execution's call/return history (stamps = scheduler event clock, unique value per insert, final state read by the main thread) is "
                            "checked per key for linearizability. An execution is distinct+non-trivial when (program, context-switch signature) is new, >= 1 switch "
                            "fell inside an operation and >= 2 operations of different threads overlapped on one key")
 
@@ -201,8 +216,8 @@ def c03(ctx):
 @prop("C04")
 def c04(ctx):
     t = ctx.tier == "thorough"
-    _olc_stages(ctx, "C04", scaled(20000 if t else 1000), scaled(24000 if t else 1200), 60)
-    ctx.rule = OLC_RULE + ("Oracles: AddressSanitizer on every access (dbg-asan stage); hold-set monitor - each reader keeps the value views from get / scan visitors "
+    _olc_stages(ctx, "C04", scaled(20000 if t else 1000), scaled(24000 if t else 1200), 60, scaled(24000 if t else 480))
+    ctx.rule = OLC_RULE + OLC_FREE + ("Oracles: AddressSanitizer on every access (dbg-asan stage); hold-set monitor - each reader keeps the value views from get / scan visitors "
                            "with a copy of the bytes until its own next quiescent state, re-reads them right before it, and every free notification is checked "
                            "against the addresses other threads hold; after each execution (all threads exited, two quiescent states of the main thread) QSBR must "
                            "be drained and the live allocate_aligned blocks must equal the nodes reachable per dump() exactly, and be zero after destruction. "
@@ -213,8 +228,8 @@ def c04(ctx):
 @prop("C09")
 def c09(ctx):
     t = ctx.tier == "thorough"
-    _olc_stages(ctx, "C09", scaled(16000 if t else 800), scaled(32000 if t else 1600), 60)
-    ctx.rule = OLC_RULE + ("In this check ~45% of the operations are scans and thread 0 always starts with one. Per scan: delivered keys strictly monotone and inside "
+    _olc_stages(ctx, "C09", scaled(16000 if t else 800), scaled(32000 if t else 1600), 60, scaled(24000 if t else 480))
+    ctx.rule = OLC_RULE + OLC_FREE + ("In this check ~45% of the operations are scans and thread 0 always starts with one. Per scan: delivered keys strictly monotone and inside "
                            "the interval; for every key that can ever be present (initial keys + operation keys) the observation - delivered value with its delivery "
                            "stamp, or absence over [call, return] (only up to the halting point) - is appended as a pseudo-get to that key's point-operation history "
                            "and must be linearizable with it. Distinct+non-trivial: (program, switch signature) new, >= 1 intra-operation switch and a scan "
@@ -318,7 +333,7 @@ def _cfg_all():
 def c16(ctx):
     from . import build as B
     t = ctx.tier == "thorough"
-    cfgs = _cfg_all() if t else CFG_SUBSET
+    cfgs = (_cfg_all() + ["dbg-asan", "rel-asan"]) if t else CFG_SUBSET
     ncases = scaled(5600 if t else 700)
     nworkers = 8 if t else 2
     try:
@@ -374,7 +389,7 @@ def c16(ctx):
     ctx.samples = [{"configurations": cfgs, "cases_per_configuration": ncases, "seed": ctx.seed,
                     "reference_trace_hashes": [r.report["notes"].get("trace_hash") for r in per_cfg[ref] if r.report]}]
     ctx.counters["configurations"] = len(cfgs)
-    ctx.counters["assertion_enabled_configurations"] = len([c for c in cfgs if "-assert-" in c])
+    ctx.counters["assertion_enabled_configurations"] = len([c for c in cfgs if "-assert-" in c or c == "dbg-asan"])
     ctx.counters["cases_compared"] = compared
     ctx.exhaustive = False
     ctx.rule = ("the same seeded cases (histories on db / mutex_db / olc_db x uint64 / byte-string keys of <= 8 bytes with scans incl. fall-off bounds, on olc_db scans "
@@ -427,6 +442,7 @@ def c17(ctx):
 def c13(ctx):
     t = ctx.tier == "thorough"
     libs = {"libs": ["-ldl"]}
+    _lincheck_selftest(ctx)
     rounds_rel = scaled(500000 if t else 36000)
     rounds_tsan = scaled(110000 if t else 8000)
     ctx.stage("free-rel", "mutex_lin", "rel", [["--seed", str(ctx.seed * 100 + i), "--first", "0", "--cases", str(rounds_rel)] for i in range(8)],
@@ -454,9 +470,9 @@ def setup_specs():
     return [
         ("codec", "dbg-asan", {}),
         ("codec", "rel", {}),
-        ("seqmodel", "dbg-asan", {}),
+        ("seqmodel", "dbg-asan", {}), ("seqmodel", "rel-asan", {}),
         ("olc_conc", "dbg-asan", {}),
-        ("olc_conc", "rel", {}),
+        ("olc_conc", "rel", {}), ("olc_conc", "rel-tsan", {}), ("lincheck_test", "rel", {}),
         ("qsbr_conc", "dbg-asan", {}), ("qsbr_conc", "rel", {}),
         ("oom", "dbg-oom", OOM_BUILD),
         ("lock_conc", "dbg", {}),
